@@ -38,6 +38,7 @@ import struct
 from typing import Any, Dict, List, Optional, Sequence, Tuple
 
 from . import common as C
+from . import priv as PV          # private state of Client objects, found on the object (not by name)
 
 ALLT = 2147483647
 ACK = 2
@@ -235,7 +236,6 @@ def env():
     from pyrtma.validators import ByteArray, Uint8
     from pyrtma import exceptions as EX
 
-    PC.select = FakeSelect
     # sockets made by the client code: the next prepared stream, else an unconnected blank
     queue: List[FakeSock] = []
     shim = type("SockShim", (), {})()
@@ -244,9 +244,8 @@ def env():
             setattr(shim, k, getattr(_socket, k))
     shim.socket = lambda *a, **k: queue.pop(0) if queue else FakeSock(b"", "idle")
     shim.getprotobyname = lambda n: 6
-    PC.socket = shim
-
-    PC.time = Clock
+    from .rebind import rebind              # installs the stand-ins under any import style of client.py
+    rebind(PC, {"select": FakeSelect, "socket": shim, "time": Clock})
     _ENV["queue"] = queue
     def make_def(tid: int, size: int, h: int):
         ns: Dict[str, Any] = {"type_id": tid, "type_name": f"T{tid}", "type_hash": h, "type_size": size,
@@ -346,15 +345,14 @@ def run_case(cid: str, case: Dict[str, Any]) -> List[str]:
     sock = FakeSock(data, case["end"], case.get("cuts", ()))
     c = PC.Client(timecode=tc)
     try:
-        c._sock.close()
+        PV.get_sock(c).close()
     except Exception:
         pass
-    c._sock = sock
-    c._connected = True
+    PV.set_sock(c, sock)
+    PV.set_connected(c, True)
     sub_all, subs = case["sub"]
-    c._sub_all = bool(sub_all)
-    c._subscribed_types = set(subs)
-    hsize = c._header_cls().size
+    PV.set_subscription_state(c, sub_all, subs)
+    hsize = c.header_cls().size
     lines = [f"CASE {cid} {hsize} {E['cd'].MT_ACKNOWLEDGE}"]
     types = set()
     for h, _ in frames:
@@ -383,8 +381,7 @@ def run_case(cid: str, case: Dict[str, Any]) -> List[str]:
             _, a, ts = call
             lines.append("CALL sub %d %s" % (int(bool(a)), " ".join(map(str, ts))))
             if not stop:
-                c._sub_all = bool(a)
-                c._subscribed_types = set(ts)
+                PV.set_subscription_state(c, a, ts)
             continue
         _, tmo, ack, sync = call
         lines.append(f"CALL read {tmo} {int(ack)} {int(sync)}")
@@ -428,7 +425,7 @@ def run_case(cid: str, case: Dict[str, Any]) -> List[str]:
         obs[i] = " ".join(t[:3]) + f" msg {hexs(mask(bytes(m.header)))} {hexs(bytes(m.data))}"
     lines += obs
     lines.append("END")
-    c._connected = False       # keep __del__ from "disconnecting" (it sleeps 100 ms)
+    PV.set_connected(c, False)       # keep __del__ from "disconnecting" (it sleeps 100 ms)
     for tid, layout in changed.items():     # the next case starts from the test definitions again
         E["set_def"](tid, layout)
     return lines
@@ -622,12 +619,13 @@ def tcp_smoke(cases: List[Dict[str, Any]]) -> List[Dict[str, Any]]:
         peer.close()
         _time.sleep(0.02)
         c = PC.Client(timecode=bool(case.get("timecode")))
-        c._sock.close()
-        c._sock = cli
-        c._connected = True
-        c._sub_all, c._subscribed_types = bool(case["sub"][0]), set(case["sub"][1])
-        saved = PC.select
-        PC.select = real_select
+        PV.get_sock(c).close()
+        PV.set_sock(c, cli)
+        PV.set_connected(c, True)
+        PV.set_subscription_state(c, case["sub"][0], case["sub"][1])
+        from .rebind import rebind, snapshot, reinstate
+        saved = snapshot(PC, ("select",))
+        rebind(PC, {"select": real_select})
         real = []
         try:
             for call in case["calls"]:
@@ -648,8 +646,8 @@ def tcp_smoke(cases: List[Dict[str, Any]]) -> List[Dict[str, Any]]:
                     r = f"crash:{type(e).__name__}"
                 real.append([r, int(bool(c.connected))])
         finally:
-            PC.select = saved
-            c._connected = False
+            reinstate(PC, saved)
+            PV.set_connected(c, False)
             cli.close()
         fk = [[f[2], int(f[1])] for f in fake]
         if case["end"] == "fin":
@@ -717,7 +715,7 @@ def run_life_case(cid: str, case: Dict[str, Any]) -> List[str]:
         c.logger.enable_console = False
     except Exception:  # noqa: BLE001
         pass
-    hsize = c._header_cls().size
+    hsize = c.header_cls().size
     lines = [f"LCASE {cid} {hsize} {E['cd'].MT_ACKNOWLEDGE}"]
     types = set()
     for call in case["calls"]:
@@ -814,8 +812,7 @@ def run_life_case(cid: str, case: Dict[str, Any]) -> List[str]:
             if stop:
                 continue
             if c.connected:             # the subscription API needs a connection
-                c._sub_all = bool(a)
-                c._subscribed_types = set(ts)
+                PV.set_subscription_state(c, a, ts)
             lines.append("UOBS")
         elif kind == "disconnect":
             lines.append("CALL disconnect")
@@ -854,7 +851,7 @@ def run_life_case(cid: str, case: Dict[str, Any]) -> List[str]:
         else:
             raise C.MachineryError(f"unknown life call {kind}")
     lines.append("END")
-    c._connected = False
+    PV.set_connected(c, False)
     return lines
 
 
